@@ -1423,7 +1423,9 @@ class Kconfig(object):
                 if match:
                     name, val = match.groups()
                     sym = get_sym(name)
-                    if not sym and in_deprecated_block:
+                    # (a deprecated name that an expression of the tree still refers to is already known as an
+                    # undefined symbol: it gets its value like any other deprecated name)
+                    if (not sym or not sym.nodes) and in_deprecated_block:
                         sym = _create_new_deprecated_symbol(name, val)
                         value_is_default = False
                         continue
@@ -1521,7 +1523,7 @@ class Kconfig(object):
 
                     name = match.group(1)
                     sym = get_sym(name)
-                    if not sym and in_deprecated_block:
+                    if (not sym or not sym.nodes) and in_deprecated_block:
                         sym = _create_new_deprecated_symbol(name, "n")
                         value_is_default = False
 
